@@ -439,7 +439,7 @@ spec fn rule_ok<SystemType : System>(h: (Option<Ticket>, BuildHandle<SystemType>
             elements.current_file_states.table() == table_upto(old(elements).current_file_states.table(), build_lists(*old(channel_pack)), old(channel_pack).leaves@.len() + it.index@),
             forall|i: int| 0 <= i < old(channel_pack).leaves@.len() ==> leaf_ok(#[trigger] handles@[i], *old(channel_pack), old(elements).current_file_states.table(), i),
             forall|j: int| 0 <= j < it.index@ ==> rule_ok(#[trigger] handles@[old(channel_pack).leaves@.len() + j], *old(channel_pack), old(elements).current_file_states.table(), *old(elements), download_urls.urls@, j),
-//@ hint after 1/1 /take_blob\(vec!\[leaf\.clone\(\)\]\);/
+//@ hint after 1/1 /take_blob\(vec!\[[^;]*\);/
         proof {
             reveal_with_fuel(table_after, 3);
             let ghost l = build_lists(*old(channel_pack))[it.index@ as int];
